@@ -32,4 +32,12 @@ impl AtomicInstant {
     pub(crate) fn set_instant(&self, instant: Instant) {
         *self.instant.write().expect("lock poisoned") = Some(instant);
     }
+
+    /// Sets the instant unless a later (or equal) one is already set.
+    pub(crate) fn set_instant_if_later(&self, instant: Instant) {
+        let mut guard = self.instant.write().expect("lock poisoned");
+        if guard.map(|current| current < instant).unwrap_or(true) {
+            *guard = Some(instant);
+        }
+    }
 }
